@@ -1,13 +1,27 @@
 """C03 — a call changes only what is random in it; everything else acts as a constant."""
-from props import tree_common
+from props import tree_common, solve_common
 
 
 def run(ctx):
-    tree_common.run_tree(
+    scs, stats = tree_common.run_tree(
         ctx, "C03", "Prop_C03.v", bits=4 | 16,
         what="a field that is not random in the call changed, or the solver was given a variable where the current value "
              "should have been a constant (or vice versa)",
         rule_extra="Checked per call: every leaf that is not random by the specification keeps its value (also when the call "
                    "fails); leaves presented to the solver as variables / constants are exactly the model's; constants carry the "
                    "value current at the time of the call (term equality).",
-        assumptions=["values are in range (C18 covers out-of-range assignments); lists and mutable rangelists: see C04"])
+        assumptions=["values are in range (C18 covers out-of-range assignments); non-random lists: see C04"])
+    # second stream: free-standing vsc.randomize(...) / vsc.randomize_with(...) over some leaves of an object (everything not
+    # passed is a constant and keeps its value) and rangelist objects edited between calls (content at the time of the call)
+    what = ("a field not passed to a free-standing call (or not random in the call) changed, the solver was given a variable where "
+            "the current value should have been a constant, or a rangelist contributed something else than its current content")
+    scs2, stats2 = solve_common.run_generic(ctx, "C03", bits=2 | 4 | 8 | 16, what=what, n_quick=60, n_thorough=2000, tree=True, hist=True,
+                                            tag="c03f", free=True, rls=True)
+    ctx.coverage["evaluations"] += stats2["evaluations"]
+    ctx.coverage["free_and_rangelist_stream"] = {
+        "evaluations": stats2["evaluations"], "outcomes": stats2["outcomes"],
+        "free_standing_calls": sum(1 for s in scs2 for o in s["ops"] if o.get("free") is not None),
+        "rangelist_edits": sum(1 for s in scs2 for o in s["ops"] if o["op"].startswith("rl_")),
+        "rule": "the same trees with 1-2 rangelist objects in the root used through inside / not_inside and edited (append / extend "
+                "/ clear) between calls; half of the calls are free-standing over 1-3 leaves, 75% with an inline block",
+    }
